@@ -375,6 +375,16 @@ Theorem C04_no_permit_held_at_success :
 Proof. exact no_holders_at_success. Qed.
 Print Assumptions C04_no_permit_held_at_success.
 
+(* the overlay's holding intervals are those of the protocol model: "certainly holds" is
+   CopyImplBase.must_hold of the program counter that the phase stands for (TExists, TFind, TPush hold;
+   a non-leaf in TGo .. TStart does not) -- the two models cannot drift apart on who holds a permit *)
+Theorem C04_overlay_matches_protocol_holding :
+  forall (g : graph) (n : node) (p : phase),
+    holds_ph g n p =
+    match pc_of_phase (leaf g n) p with Some q => CopyImplBase.must_hold q | None => false end.
+Proof. exact overlay_holds_is_protocol_must_hold. Qed.
+Print Assumptions C04_overlay_matches_protocol_holding.
+
 (* the overlay is strictly tighter: with K = 1 a second blob cannot be probed while a leaf that was
    found absent waits for its PreCopy (it holds the only permit) -- CopySpec alone accepts that
    interleaving -- and the sequential run is accepted *)
